@@ -168,6 +168,10 @@ struct Case {
     ext: u8,
     /// xlsx: part of every defined-name text is written as a CDATA section
     cdata: bool,
+    /// xlsx / ods: elements, comments and processing instructions the metadata readers must skip (fileVersion, bookViews,
+    /// calcPr, mc:AlternateContent, externalReferences, pivotCaches / office:scripts, font-face-decls, calculation-settings,
+    /// database-ranges …) at random positions between the interpreted elements
+    inert: bool,
     sheets: Vec<LSheet>,
     names: Vec<LName>,
 }
@@ -203,7 +207,7 @@ impl Case {
             .collect();
         let pre: Vec<String> = self.pre.iter().map(|(i, p)| format!("{}:{}", i, hex(p))).collect();
         format!(
-            "{};{};{};{};{};P={};S={};N={};Q={};X={};C={}",
+            "{};{};{};{};{};P={};S={};N={};Q={};X={};C={};I={}",
             self.fmt.tag(),
             self.seed,
             self.date1904 as u8,
@@ -214,12 +218,13 @@ impl Case {
             nm.join(","),
             self.quirk,
             self.ext,
-            self.cdata as u8
+            self.cdata as u8,
+            self.inert as u8
         )
     }
     fn parse(s: &str) -> Case {
         let p: Vec<&str> = s.split(';').collect();
-        assert!((8..=11).contains(&p.len()), "bad case {s}");
+        assert!((8..=12).contains(&p.len()), "bad case {s}");
         let utf = |h: &str| String::from_utf8(unhex(h)).expect("utf8");
         let list = |x: &str, pre: &str| -> Vec<String> {
             let b = x.strip_prefix(pre).expect("prefix");
@@ -270,6 +275,7 @@ impl Case {
             quirk: if p.len() >= 9 { p[8].strip_prefix("Q=").expect("Q=").parse().unwrap() } else { 0 },
             ext: if p.len() >= 10 { p[9].strip_prefix("X=").expect("X=").parse().unwrap() } else { 0 },
             cdata: p.len() >= 11 && p[10] == "C=1",
+            inert: p.len() >= 12 && p[11] == "I=1",
             sheets,
             names,
         }
@@ -516,6 +522,7 @@ fn gen_case(fmt: Fmt, rng: &mut Rng) -> Case {
         },
         ext: if fmt == Fmt::Xlsx && rng.chance(1, 2) { *rng.pick(&[1u8, 1, 1, 2, 3, 4, 5, 7]) } else { 0 },
         cdata: fmt == Fmt::Xlsx && rng.chance(1, 3),
+        inert: matches!(fmt, Fmt::Xlsx | Fmt::Ods) && rng.chance(1, 2),
         sheets,
         names,
     }
@@ -848,6 +855,39 @@ fn build_xlsx(c: &Case) -> Built {
     }
     book.split_defined_names = !c.plain && rng.chance(1, 3);
     book.cdata_defined_names = c.cdata;
+    if c.inert {
+        let kv = |k: &str, v: &str| (k.to_string(), v.to_string());
+        let q = |n: &str| if c.prefix.is_empty() { n.to_string() } else { format!("{}:{}", c.prefix, n) };
+        let el = |n: String, a: Vec<(String, String)>| vec![Ev::Start(n.clone(), a), Ev::End(n)];
+        let wrap = |n: String, inner: Vec<Ev>| {
+            let mut v = vec![Ev::Start(n.clone(), vec![])];
+            v.extend(inner);
+            v.push(Ev::End(n));
+            v
+        };
+        let mut blocks: Vec<Vec<Ev>> = vec![
+            el(q("fileVersion"), vec![kv("appName", "xl"), kv("lastEdited", "7"), kv("lowestEdited", "7"), kv("rupBuild", "27231")]),
+            wrap(q("bookViews"), el(q("workbookView"), vec![kv("xWindow", "-110"), kv("yWindow", "-110"), kv("windowWidth", "23260"), kv("windowHeight", "12460"), kv("activeTab", "1")])),
+            el(q("calcPr"), vec![kv("calcId", "191029"), kv("fullCalcOnLoad", "1")]),
+            {
+                let mut v = vec![Ev::Start("mc:AlternateContent".into(), vec![kv("xmlns:mc", "http://schemas.openxmlformats.org/markup-compatibility/2006")])];
+                v.push(Ev::Start("mc:Choice".into(), vec![kv("Requires", "x15")]));
+                v.extend(el("x15ac:absPath".into(), vec![kv("url", "C:\\Users\\Алена & <Co>\\"), kv("xmlns:x15ac", "http://schemas.microsoft.com/office/spreadsheetml/2010/11/ac")]));
+                v.push(Ev::End("mc:Choice".into()));
+                v.push(Ev::End("mc:AlternateContent".into()));
+                v
+            },
+            wrap(q("externalReferences"), el(q("externalReference"), vec![kv("r:id", "rId901")])),
+            wrap(q("pivotCaches"), el(q("pivotCache"), vec![kv("cacheId", "7"), kv("r:id", "rId902")])),
+            vec![Ev::Other("<!-- names & <sheets> below -->".into())],
+            vec![Ev::Other("<?audit keep=\"1\"?>".into())],
+            wrap(q("functionGroups"), vec![Ev::Text("\n  ".into())]),
+        ];
+        rng.shuffle(&mut blocks);
+        let k = rng.range(1, blocks.len() as u64) as usize;
+        blocks.truncate(k);
+        book.workbook_inert = blocks;
+    }
     if c.ext != 0 {
         let kv = |k: &str, v: &str| (k.to_string(), v.to_string());
         let q = |n: &str| if c.prefix.is_empty() { n.to_string() } else { format!("{}:{}", c.prefix, n) };
@@ -912,7 +952,26 @@ fn build_ods(c: &Case) -> Built {
             kv("office:version", "1.2"),
         ],
     ));
+    let el = |n: &str, a: Vec<(String, String)>| vec![Ev::Start(n.to_string(), a), Ev::End(n.to_string())];
+    let inert = c.inert;
+    if inert && rng.chance(1, 2) {
+        evs.extend(el("office:scripts", vec![]));
+    }
+    if inert && rng.chance(1, 2) {
+        evs.push(ev_start("office:font-face-decls", vec![]));
+        evs.extend(el("style:font-face", vec![kv("style:name", "ta1"), kv("svg:font-family", "'Liberation Sans'")]));
+        evs.push(Ev::End("office:font-face-decls".into()));
+    }
+    if inert && rng.chance(1, 2) {
+        evs.push(Ev::Other("<!-- styles & <tables> below -->".into()));
+    }
     evs.push(ev_start("office:automatic-styles", vec![]));
+    if inert && rng.chance(1, 2) {
+        // a date style: has a style:name but is no style:style
+        evs.push(ev_start("number:date-style", vec![kv("style:name", "ta1"), kv("xmlns:number", "urn:oasis:names:tc:opendocument:xmlns:datastyle:1.0")]));
+        evs.extend(el("number:day", vec![]));
+        evs.push(Ev::End("number:date-style".into()));
+    }
     // how each sheet gets its visibility: a style per sheet, a shared style, no style, a style without the
     // attribute, or a reference to a style that does not exist (visible)
     let mut style_of: Vec<Option<String>> = vec![];
@@ -976,7 +1035,18 @@ fn build_ods(c: &Case) -> Built {
     evs.push(Ev::End("office:automatic-styles".into()));
     evs.push(ev_start("office:body", vec![]));
     evs.push(ev_start("office:spreadsheet", vec![]));
+    if inert && rng.chance(1, 2) {
+        evs.extend(el("table:calculation-settings", vec![kv("table:case-sensitive", "false"), kv("table:use-regular-expressions", "false")]));
+    }
+    if inert && rng.chance(1, 2) {
+        evs.push(ev_start("table:content-validations", vec![]));
+        evs.extend(el("table:content-validation", vec![kv("table:name", "val1"), kv("table:condition", "of:cell-content()>=1 & <9")]));
+        evs.push(Ev::End("table:content-validations".into()));
+    }
     for (i, s) in c.sheets.iter().enumerate() {
+        if inert && rng.chance(1, 6) {
+            evs.push(Ev::Other("<?between tables?>".into()));
+        }
         let mut a = vec![kv("table:name", &s.name)];
         if let Some(st) = &style_of[i] {
             if !c.plain && rng.chance(1, 2) {
@@ -1016,6 +1086,11 @@ fn build_ods(c: &Case) -> Built {
             }
         }
         evs.push(Ev::End("table:named-expressions".into()));
+    }
+    if inert && rng.chance(1, 2) {
+        evs.push(ev_start("table:database-ranges", vec![]));
+        evs.extend(el("table:database-range", vec![kv("table:name", "__Anonymous_Sheet_DB__0"), kv("table:target-range-address", "$Sheet1.$A$1:.$B$2")]));
+        evs.push(Ev::End("table:database-ranges".into()));
     }
     evs.push(Ev::End("office:spreadsheet".into()));
     evs.push(Ev::End("office:body".into()));
@@ -1229,6 +1304,9 @@ fn features(c: &Case, part: &str) -> String {
     if c.cdata && part == "N" {
         f.push("cdata".to_string());
     }
+    if c.inert {
+        f.push("inert".to_string());
+    }
     if f.is_empty() {
         String::new()
     } else {
@@ -1363,6 +1441,11 @@ fn shrink(c: &Case, kind: &str, sig: &str, drv: &mut Driver) -> Case {
         if cur.cdata {
             let mut d = cur.clone();
             d.cdata = false;
+            cands.push(d);
+        }
+        if cur.inert {
+            let mut d = cur.clone();
+            d.inert = false;
             cands.push(d);
         }
         for bit in [1u8, 2, 4] {
@@ -1575,7 +1658,7 @@ fn unit_boundsheet(_drv: &mut Driver, rep: &mut Report, _rng: &mut Rng, _n: u64)
 
 fn corpus() -> Vec<Case> {
     let sh = |n: &str, vis: u8, kind: Kind| LSheet { name: n.to_string(), vis, kind };
-    let base = |fmt: Fmt| Case { fmt, seed: 1, date1904: false, prefix: String::new(), plain: true, pre: vec![], quirk: 0, ext: 0, cdata: false, sheets: vec![sh("S1", 0, Kind::Work)], names: vec![] };
+    let base = |fmt: Fmt| Case { fmt, seed: 1, date1904: false, prefix: String::new(), plain: true, pre: vec![], quirk: 0, ext: 0, cdata: false, inert: false, sheets: vec![sh("S1", 0, Kind::Work)], names: vec![] };
     let mut v = vec![];
     // D22: <x:workbookPr date1904="1"/> was ignored
     let mut c = base(Fmt::Xlsx);
@@ -1666,7 +1749,7 @@ fn main() {
         "C16",
         "one case = one logical workbook (0-12 sheets with unique names of 1-31 UTF-16 units drawn from ASCII, XML specials, Latin-1, BMP and non-BMP characters, \
          excluding the characters Excel forbids in sheet names and NUL, sometimes with a leading U+FEFF; every visibility x kind the format expresses; 0-10 defined names: text for \
-         xlsx/ods, PtgRef3d/PtgArea3d (absolute, and with relative row/column parts rendered without `$`)/PtgRefErr3d for xls/xlsb; both date systems, in every sheet one date-styled cell of every numeric record kind and encoding (xls: NUMBER, RK x4, MULRK, FORMULA; xlsb: BrtCellReal, BrtCellRk x4, BrtFmlaNum; xlsx: number, whole number, formula with cached number), each checked for the flag; xlsx: in half of the cases an extLst with foreign-namespace elements whose local names are workbookPr / definedName / sheet) written under a random layout; non-trivial = at \
+         xlsx/ods, PtgRef3d/PtgArea3d (absolute, and with relative row/column parts rendered without `$`)/PtgRefErr3d for xls/xlsb; both date systems, in every sheet one date-styled cell of every numeric record kind and encoding (xls: NUMBER, RK x4, MULRK, FORMULA; xlsb: BrtCellReal, BrtCellRk x4, BrtFmlaNum; xlsx: number, whole number, formula with cached number), each checked for the flag; xlsx: in half of the cases an extLst with foreign-namespace elements whose local names are workbookPr / definedName / sheet) in half of the xlsx / ods cases inert elements, comments and processing instructions at random positions between the interpreted elements) written under a random layout; non-trivial = at \
          least one sheet and (several sheets, a defined name, or a non-default visibility/kind); \
          about 4% of the xls / ods cases carry an out-of-specification detail (DATEMODE = 2; a style name defined twice) on which only implementation and model are compared; unit cases = BoundSheet8 payloads (all 65536 hsState x dt byte pairs, random and truncated strings)",
     );
